@@ -2,12 +2,12 @@
 CFG = {
    "ready": True,
    "level_text": "Proof: for every canvas size, frame list, offsets over the whole int64 range, blend x dispose, HasAlpha flags and pixel alphas, the AnimDecoder model (key-frame shortcut, dual buffers, Go rectangle arithmetic with overflow clamp, uint32 blend) equals the container-specification model (Coq theorem C09_animdec_refines_spec, by an invariant over frame histories); the blend arithmetic is proved overflow-free and equal to the reference formula for all pixel pairs. The model is tied to the code on every run by extraction + differential execution against AnimDecoder.NextFrame (thousands of generated animations incl. a blend-kernel sweep) and by a regenerated constant obligation.",
-   "level_note": "Trusted: Coq kernel, extraction (ExtrOcamlBasic), OCaml glue, Go harness, translator. The Go loops are modelled pointwise; the tie between model and code is sampled correspondence, not a proof about the Go text. Reset-replay and snapshot immutability are evaluated on the implementation only (pure in the model).",
+   "level_note": "Trusted: Coq kernel, extraction (ExtrOcamlBasic), OCaml glue, Go harness, translator. The Go loops are modelled as in-place nested loops (AnimDecLoops.v) and proved equal to the pointwise definitions; the tie between model and code is sampled correspondence, not a proof about the Go text. Reset-replay and snapshot immutability are evaluated on the implementation only (pure in the model).",
    "technique": "Rocq proof of refinement (implementation model = specification model) by invariant over frame histories; extraction-based correspondence with the Go decoder",
    "notes": [
      "theorem C09_animdec_refines_spec: for all canvas sizes, frame lists, offsets in int64, blend x dispose, pixel alphas: AnimDecoder model = container-spec model (no hypothesis on HasAlpha flags after the fix: commit 2865694)",
      "correspondence: Go AnimDecoder.NextFrame snapshots vs extracted impl_run; direct evaluation: Go snapshots vs extracted spec_run; Reset replay and snapshot immutability evaluated Go-side",
    ],
-   "trusted_base": ["modelled, not verified: animation/animation.go NextFrame/isKeyFrame/compositeFrame/applyDispose/fillRect/alphaBlendNRGBA, frame.go Bounds; loops are modelled pointwise (tab)"],
+   "trusted_base": ["modelled, not verified: animation/animation.go NextFrame/isKeyFrame/compositeFrame/applyDispose/fillRect/alphaBlendNRGBA, frame.go Bounds; compositeFrame/fillRect loops modelled as nested in-place loops and proved equal to the pointwise model"],
    "assumptions": ["Go int is 64-bit two's complement (wrap64); image.Rectangle.Intersect/Rect semantics as in Go 1.24 stdlib"],
  }
